@@ -589,7 +589,6 @@ Proof.
             |exists r; repeat split; auto]).
   all: try solve [right; eexists; split; [reflexivity|]; simpl; eauto].
   all: try (exists r; split; [rewrite nth_error_app1; [assumption|apply nth_error_Some; congruence]|repeat split; auto]).
-  Show.
 Qed.
 
 Lemma b_wdel_step s l s' : InvA s -> InvB s -> step s l = Some s' ->
@@ -609,4 +608,318 @@ Proof.
   pose proof (a_pcdel _ HA _ _ E) as Hg; destruct (a_tab _ HA _ _ Hg) as (r1 & Hr1 & Hid1);
   unfold rq in *; simpl; exists rid0, (set_reply id0 r1); rewrite nth_upd_same, Hr1; simpl;
   repeat split; [assumption|discriminate].
+Qed.
+
+Lemma In_ids s rid r : rq s rid = Some r -> In (r_id r) (map r_id (reqs s)).
+Proof. intros H. apply in_map. eapply nth_error_In; eauto. Qed.
+
+Lemma b_dlog2_step s l s' : InvA s -> InvB s -> step s l = Some s' ->
+  forall rid, In rid (deliver_log s') ->
+  exists r, rq s' rid = Some r /\ r_reply r <> None /\
+            (tget (r_id r) (table s') = None \/ pc s' = WDel (r_id r)).
+Proof.
+  intros HA HB H rid Hin.
+  (* old entries: the request persists with its id and reply *)
+  assert (Hold : In rid (deliver_log s) ->
+                 exists r r', rq s rid = Some r /\ rq s' rid = Some r' /\ r_id r' = r_id r /\ r_reply r' <> None /\
+                              (tget (r_id r) (table s) = None \/ pc s = WDel (r_id r))).
+  { intros Hi. destruct (b_dlog2 _ HB _ Hi) as (r & Hr & Hrep & Hd).
+    destruct (rq_pres _ _ _ _ _ H Hr) as (r' & Hr' & Hid' & Hrep' & _). exists r, r'. repeat split; auto. }
+  destruct l; inv_step H; simpl in Hin |- *.
+  all: try (destruct (qualify s); simpl in Hin |- * ).
+  (* labels that change neither table nor pc nor the log *)
+  all: try solve [destruct (Hold Hin) as (xr & xr' & Hr & Hr' & Hid & Hrep & Hd); exists xr'; rewrite Hid; auto].
+  (* labels that change pc (from a state that is not WDel) but not the table *)
+  all: try solve [destruct (Hold Hin) as (xr & xr' & Hr & Hr' & Hid & Hrep & [Hd|Hd]);
+                  [exists xr'; rewrite Hid; auto | exfalso; try (apply is_idle_true in E); congruence]].
+  (* LReg: the new id is fresh *)
+  all: try solve [apply reg_guard in E as (-> & Hn & Hl);
+                  destruct (Hold Hin) as (xr & xr' & Hr & Hr' & Hid & Hrep & [Hd|Hd]);
+                  [exists xr'; rewrite Hid; repeat split; auto; left; rewrite tget_tset_other; [assumption|];
+                   intros ->; apply Hn; eapply In_ids; eauto
+                  | rewrite Hd in Hl; discriminate Hl]].
+  (* LTDel *)
+  all: try solve [apply N.eqb_eq in E0; subst;
+                  destruct (Hold Hin) as (xr & xr' & Hr & Hr' & Hid & Hrep & [Hd|Hd]);
+                  exists xr'; rewrite Hid; repeat split; auto; left;
+                  [apply tget_tdel_None; assumption
+                  | injection Hd as <-; apply tget_tdel_same; apply (a_keys _ HA)]].
+  (* LTClear *)
+  all: try solve [destruct (Hold Hin) as (xr & xr' & Hr & Hr' & Hid & Hrep & Hd); exists xr'; repeat split; auto].
+  all: try solve [apply reg_guard in E as (-> & Hn & Hl);
+    destruct (Hold Hin) as (xr & xr' & Hr & Hr' & Hid & Hrep & [Hd|Hd]);
+    [ exists xr'; rewrite Hid; repeat split; auto; left; rewrite tget_tset_other; [assumption|];
+      intros Heq; apply Hn; rewrite <- Heq; eapply In_ids; eauto
+    | rewrite Hd in Hl; discriminate Hl ]].
+  (* LEvSetReply *)
+  all: apply Nat.eqb_eq in E0; subst; apply in_app_iff in Hin as [Hin|[<-|[]]];
+    [ destruct (Hold Hin) as (xr & xr' & Hr & Hr' & Hid & Hrep & [Hd|Hd]);
+      [exists xr'; rewrite Hid; auto | exfalso; congruence]
+    | pose proof (a_pcdel _ HA _ _ E) as Hg; destruct (a_tab _ HA _ _ Hg) as (r1 & Hr1 & Hid1);
+      unfold rq in *; simpl; exists (set_reply id r1); rewrite nth_upd_same, Hr1; simpl;
+      repeat split; [discriminate|right; congruence] ].
+Qed.
+
+Lemma NoDup_app_one_nat (l : list nat) x : NoDup l -> ~ In x l -> NoDup (l ++ [x]).
+Proof.
+  intros Hnd Hn. induction l as [|a l IH]; simpl; [constructor; [tauto|constructor]|].
+  inversion Hnd; subst. constructor.
+  - rewrite in_app_iff. simpl. intros [H|[H|[]]]; [contradiction|]. subst. apply Hn. simpl; auto.
+  - apply IH; auto. intros H. apply Hn. simpl; auto.
+Qed.
+
+Lemma b_dlog_step s l s' : InvA s -> InvB s -> step s l = Some s' -> NoDup (deliver_log s').
+Proof.
+  intros HA HB H. pose proof (b_dlog _ HB) as Hnd.
+  destruct l; inv_step H; simpl; try assumption.
+  all: try (destruct (qualify s); simpl; assumption).
+  all: apply Nat.eqb_eq in E0; subst; apply NoDup_app_one_nat; [assumption|]; intros Hin;
+    destruct (b_dlog2 _ HB _ Hin) as (r & Hr & Hrep & [Hd|Hd]); [|congruence];
+    pose proof (a_pcdel _ HA _ _ E) as Hg; destruct (a_tab _ HA _ _ Hg) as (r1 & Hr1 & Hid1);
+    congruence.
+Qed.
+
+Lemma b_pend_step s l s' : InvA s -> InvB s -> step s l = Some s' ->
+  forall rid r, rq s' rid = Some r -> r_reply r = None -> r_error r = None ->
+  tget (r_id r) (table s') = Some rid \/ In rid (pc_rids (pc s')).
+Proof.
+  intros HA HB H rid r' Hr' Hrep Herr.
+  assert (Hsrc : (exists r, rq s rid = Some r /\ r_id r = r_id r' /\ r_reply r = None /\ r_error r = None) \/
+                 (rq s rid = None /\ l = LReg rid (r_id r'))).
+  { destruct (rq_step _ _ _ _ _ H Hr') as [Hu|[(r & c & Hu & -> & _)|[(r & id & Hu & -> & Hpc)|[(r & e & rest & Hu & -> & _)|(Hn & id & -> & ->)]]]];
+      simpl in *; try discriminate; eauto 8. }
+  destruct Hsrc as [(r & Hr & Hid & Hrep0 & Herr0)|[Hnone ->]].
+  - rewrite <- Hid. pose proof (b_pend _ HB _ _ Hr Hrep0 Herr0) as D.
+    destruct l; inv_step H; simpl.
+    all: try (destruct (qualify s); simpl).
+    all: try exact D.
+    all: try solve [destruct D as [D|D]; [left; exact D|rewrite ?E in D; simpl in D; try (apply is_idle_true in E; rewrite E in D; simpl in D); contradiction]].
+    all: try solve [apply reg_guard in E as (-> & Hn & Hl); destruct D as [D|D];
+                    [left; rewrite tget_tset_other; [exact D|intros Heq; apply Hn; rewrite <- Heq; eapply In_ids; eauto]
+                    |right; exact D]].
+    all: try solve [apply N.eqb_eq in E0; subst; destruct D as [D|D]; [|simpl in D; contradiction]; left;
+                    match goal with Hw : pc _ = WDel ?i |- _ =>
+                    destruct (N.eq_dec (r_id r) i) as [Heq|Hne];
+                    [exfalso; destruct (b_wdel _ HB _ Hw) as (rid2 & r2 & Hr2 & Hid2 & Hrep2);
+                     assert (rid2 = rid) by (eapply ids_inj; [apply (a_ids _ HA)|exact Hr2|exact Hr|congruence]);
+                     subst; unfold rq in *; congruence
+                    |rewrite tget_tdel_other; assumption] end].
+    (* LTClear: the snapshot is the table *)
+    all: try solve [right; destruct D as [D|D]; [|exact D];
+                    match goal with Hw : pc _ = WErrClear ?e ?rids |- _ =>
+                      rewrite (a_clear _ HA _ _ Hw); eapply tget_In_snd; eauto end].
+    (* LEvSetErr: the head of the list is the request being failed, which is not ours *)
+    all: try solve [apply Nat.eqb_eq in E1; subst; destruct D as [D|[D|D]]; [left; exact D| |right; exact D];
+                    exfalso; subst; unfold rq in *; simpl in Hr'; rewrite nth_upd_same, Hr in Hr'; simpl in Hr';
+                    injection Hr' as <-; discriminate Herr].
+
+  - inv_step H. simpl. left. apply tget_tset_same.
+Qed.
+
+Lemma b_late_step s l s' : InvA s -> InvB s -> step s l = Some s' ->
+  after_clear (pc s') = true -> forall id rid, tget id (table s') = Some rid -> ~ In rid (wrote s').
+Proof.
+  intros HA HB H Hac id rid Hg. pose proof (b_late _ HB) as IH.
+  destruct l; inv_step H; simpl in Hac, Hg |- *; try discriminate.
+  all: try (destruct (qualify s); simpl in Hac, Hg |- *; try discriminate).
+  all: try solve [eapply IH; eauto].
+  all: try solve [rewrite ?E in IH; simpl in IH; eapply IH; eauto].
+  all: try solve [apply is_idle_true in E; rewrite E in Hac; discriminate].
+  all: try solve [rewrite E in Hac; discriminate].
+  all: apply reg_guard in E as (-> & Hn & Hl); destruct (N.eq_dec id id0) as [->|Hne];
+    [ rewrite tget_tset_same in Hg; injection Hg as <-; intros Hin; apply (a_wrote _ HA) in Hin; lia
+    | rewrite tget_tset_other in Hg by assumption; eapply IH; eauto ].
+Qed.
+
+Lemma InvB_init q : InvB (init q).
+Proof.
+  constructor; simpl; unfold rq; simpl.
+  all: try solve [intros [|rid] r; simpl; intros; discriminate].
+  all: try solve [intros [|rid] r i; simpl; intros; discriminate].
+  all: try solve [intros; discriminate].
+  all: try solve [constructor].
+  all: try solve [intros; contradiction].
+  all: try solve [intros Hx; congruence].
+
+Qed.
+
+Lemma InvB_step s l s' : InvA s -> InvB s -> step s l = Some s' -> InvB s'.
+Proof.
+  intros HA HB H.
+  destruct (b_bcast_step _ _ _ HA HB H) as (H1 & H2 & H3 & H4).
+  constructor; auto.
+  - eapply b_own_step; eauto.
+  - eapply b_wdel_step; eauto.
+  - eapply b_dlog_step; eauto.
+  - eapply b_dlog2_step; eauto.
+  - eapply b_pend_step; eauto.
+  - eapply b_late_step; eauto.
+  - eapply b_ev_step; eauto.
+  - eapply b_done_step; eauto.
+Qed.
+
+Definition Inv (s : st) : Prop := InvA s /\ InvB s.
+
+Lemma reach_Inv s : reach s -> Inv s.
+Proof.
+  intros (q & ls & H).
+  eapply (run_inv Inv); [|split; [apply InvA_init|apply InvB_init]|exact H].
+  intros s0 l s1 [HA HB] Hs. split; [eapply InvA_step|eapply InvB_step]; eauto.
+Qed.
+
+(* ================= statements exported to Props/C03.v, C04.v, C11.v ================= *)
+
+(* C03: a stored reply, and the reply a completed call returned, carry the request's own id *)
+Lemma c03_own_reply s rid r i : reach s -> rq s rid = Some r -> r_reply r = Some i -> i = r_id r.
+Proof. intros Hr. apply (b_own _ (proj2 (reach_Inv _ Hr))). Qed.
+
+Lemma c03_outcome_own s rid r i : reach s -> rq s rid = Some r -> r_st r = CDone (OReply i) -> i = r_id r.
+Proof.
+  intros Hr Hq Hst. destruct (reach_Inv _ Hr) as [HA HB].
+  eapply (b_own _ HB); eauto. eapply (b_done _ HB); eauto.
+Qed.
+
+Lemma c03_unique_ids s : reach s -> NoDup (map r_id (reqs s)).
+Proof. intros Hr. apply (a_ids _ (proj1 (reach_Inv _ Hr))). Qed.
+
+Lemma c03_at_most_once s : reach s -> NoDup (deliver_log s).
+Proof. intros Hr. apply (b_dlog _ (proj2 (reach_Inv _ Hr))). Qed.
+
+(* delivering a reply (late or not) touches nothing but that request's record, the log and the pc *)
+Lemma c03_deliver_frame s rid s' :
+  step s (LEvSetReply rid) = Some s' ->
+  connected s' = connected s /\ closing s' = closing s /\ table s' = table s /\ nq s' = nq s /\ outq s' = outq s /\
+  (forall rid', rid' <> rid -> rq s' rid' = rq s rid').
+Proof.
+  intros H. inv_step H; simpl; repeat split; auto.
+  all: intros rid' Hne; unfold rq; simpl; apply nth_upd_other; apply Nat.eqb_eq in E0; congruence.
+Qed.
+
+Lemma c03_delete_frame s id s' :
+  step s (LTDel id) = Some s' ->
+  connected s' = connected s /\ reqs s' = reqs s /\ nq s' = nq s /\ pc s' = WIdle /\
+  (forall k, k <> id -> tget k (table s') = tget k (table s)).
+Proof.
+  intros H. inv_step H; simpl; repeat split; auto.
+  intros k Hk. apply N.eqb_eq in E0. subst. now apply tget_tdel_other.
+Qed.
+
+(* a reply is only ever delivered to the request registered under its message-id *)
+Lemma c03_deliver_by_id s rid s' :
+  reach s -> step s (LEvSetReply rid) = Some s' ->
+  exists id r, pc s = WDeliver rid id /\ tget id (table s) = Some rid /\ rq s rid = Some r /\ r_id r = id /\
+               rq s' rid = Some (set_reply id r).
+Proof.
+  intros Hr H. destruct (reach_Inv _ Hr) as [HA HB]. pose proof H as H0.
+  inv_step H. apply Nat.eqb_eq in E0; subst.
+  pose proof (a_pcdel _ HA _ _ E) as Hg. destruct (a_tab _ HA _ _ Hg) as (r1 & Hr1 & Hid1).
+  exists id, r1. repeat split; auto. unfold rq in *; simpl. rewrite nth_upd_same, Hr1. reflexivity.
+Qed.
+
+(* messages that are not replies are ignored by the reply listener when the profile checks the tag *)
+Lemma c03_nonreply_ignored s kind arg s' :
+  qualify s = true -> (kind = 3 \/ kind = 4) -> step s (LRecv kind arg) = Some s' -> s' = s.
+Proof.
+  intros Hq [-> | ->] H; inv_step H; simpl in *; try discriminate; try reflexivity; congruence.
+Qed.
+
+(* C04 / C14 (session clause): once the worker has closed or exited, every request that was written
+   to the transport and got no reply has been failed (error stored, event set) *)
+Lemma c04_all_failed s rid r :
+  reach s -> pc s = WClosed \/ pc s = WExited ->
+  rq s rid = Some r -> In rid (wrote s) -> r_reply r = None ->
+  r_error r <> None /\ r_ev r = true.
+Proof.
+  intros Hr Hpc Hq Hw Hrep. destruct (reach_Inv _ Hr) as [HA HB].
+  assert (He : r_error r <> None).
+  { intros Herr. destruct (b_pend _ HB _ _ Hq Hrep Herr) as [Hg|Hin].
+    - eapply (b_late _ HB); eauto. destruct Hpc as [-> | ->]; reflexivity.
+    - destruct Hpc as [Hp|Hp]; rewrite Hp in Hin; contradiction. }
+  split; [exact He|]. apply (b_ev _ HB _ _ Hq). right. exact He.
+Qed.
+
+(* the same holds as soon as the error broadcast has finished, before close() *)
+Lemma c04_all_failed_after_broadcast s rid r e :
+  reach s -> pc s = WErrDeliver e [] ->
+  rq s rid = Some r -> In rid (wrote s) -> r_reply r = None -> r_error r <> None /\ r_ev r = true.
+Proof.
+  intros Hr Hpc Hq Hw Hrep. destruct (reach_Inv _ Hr) as [HA HB].
+  assert (He : r_error r <> None).
+  { intros Herr. destruct (b_pend _ HB _ _ Hq Hrep Herr) as [Hg|Hin].
+    - eapply (b_late _ HB); eauto. rewrite Hpc. reflexivity.
+    - rewrite Hpc in Hin. contradiction. }
+  split; [exact He|]. apply (b_ev _ HB _ _ Hq). right. exact He.
+Qed.
+
+(* the stored error is the one that was broadcast; after the peer closed it is SessionCloseError (1) *)
+Lemma c04_error_is_broadcast s rid r e :
+  reach s -> rq s rid = Some r -> r_error r = Some e ->
+  bcast s = Some e /\ (eof_seen s = true -> e = 1).
+Proof.
+  intros Hr Hq He. destruct (reach_Inv _ Hr) as [HA HB].
+  pose proof (b_err _ HB _ _ _ Hq He) as Hb. split; [exact Hb|].
+  intros Hf. apply (proj2 (b_eof _ HB Hf)). exact Hb.
+Qed.
+
+Lemma c04_disconnected s : reach s -> pc s = WClosed \/ pc s = WExited -> connected s = false.
+Proof. intros Hr. apply (a_stop _ (proj1 (reach_Inv _ Hr))). Qed.
+
+Lemma c04_refused_after s rid b s' r' :
+  connected s = false -> step s (LChk rid b) = Some s' -> rq s' rid = Some r' ->
+  b = false /\ r_st r' = CDone (OExc 5).
+Proof.
+  intros Hc H Hq. unfold rq in Hq.
+  inv_step H; simpl in Hq; apply andb_true_iff in E0 as [_ E0]; rewrite Hc in E0; simpl in E0; try discriminate.
+  rewrite nth_upd_same, E in Hq. simpl in Hq. injection Hq as <-. auto.
+Qed.
+
+(* a synchronous call has exactly one blocking point, the bounded wait; whatever its result, the call ends *)
+Lemma c04_wait_ends s rid flag s' r' :
+  step s (LWaitRes rid flag) = Some s' -> rq s' rid = Some r' ->
+  exists o, r_st r' = CDone o /\ (flag = false -> o = OExc 4).
+Proof.
+  intros H Hq. inv_step H. unfold rq in Hq. simpl in Hq. rewrite nth_upd_same, E in Hq. simpl in Hq.
+  injection Hq as <-. simpl. eexists; split; [reflexivity|]. intros ->. reflexivity.
+Qed.
+
+(* a completed call never reports a reply when an error was stored: the error wins *)
+Lemma c04_error_wins s rid s' r r' :
+  rq s rid = Some r -> r_error r <> None -> step s (LWaitRes rid true) = Some s' -> rq s' rid = Some r' ->
+  exists e, r_st r' = CDone (OExc e).
+Proof.
+  intros Hq He H Hq'. unfold rq in *. inv_step H. simpl in Hq'. rewrite nth_upd_same, E in Hq'. simpl in Hq'.
+  injection Hq' as <-. simpl. unfold wait_outcome.
+  match goal with |- context [r_error ?x] => assert (Hx : x = r) by congruence; rewrite Hx end.
+  destruct (r_error r); [eauto|congruence].
+Qed.
+
+(* C11 *)
+Lemma c11_queue_history s : reach s -> taken s ++ nq s ++ pend_notif (pc s) = recv_notifs s.
+Proof. intros Hr. apply (a_notif _ (proj1 (reach_Inv _ Hr))). Qed.
+
+Lemma c11_not_a_reply s n s' :
+  step s (LRecv 2 n) = Some s' ->
+  reqs s' = reqs s /\ table s' = table s /\ connected s' = connected s /\ deliver_log s' = deliver_log s /\
+  pc s' = WNotif n.
+Proof. intros H. inv_step H; simpl in *; try discriminate. repeat split; reflexivity. Qed.
+
+Lemma c11_enqueue_only s n l s' :
+  pc s = WNotif n -> step s l = Some s' ->
+  (l = LNqPut n /\ pc s' = WIdle /\ nq s' = nq s ++ [n] /\ reqs s' = reqs s /\ table s' = table s /\ connected s' = connected s)
+  \/ pc s' = WNotif n.
+Proof.
+  intros Hp H. destruct l; inv_step H; simpl in *; try congruence; auto.
+  all: try (destruct (qualify s); simpl; auto).
+  all: try solve [apply is_idle_true in E; congruence].
+  all: try solve [left; apply N.eqb_eq in E0; subst; injection Hp as <-; repeat split; reflexivity].
+Qed.
+
+Lemma c11_take_fifo s got n s' :
+  step s (LTake got n) = Some s' ->
+  (got = true /\ exists t, nq s = n :: t /\ nq s' = t /\ taken s' = taken s ++ [n]) \/
+  (got = false /\ nq s = [] /\ s' = s).
+Proof.
+  intros H. inv_step H; simpl.
+  - right. auto.
+  - left. apply N.eqb_eq in E1. subst. split; [reflexivity|]. eexists; repeat split; reflexivity.
 Qed.
